@@ -25,10 +25,22 @@ pub struct Cfg {
     /// additional mods given as intermode acronyms (lazer-only mods: "IN", "HO", "4K", "MR", ...)
     #[serde(default)]
     pub acronyms: Option<String>,
+    /// lazer taiko DifficultyAdjust with this scroll speed (forces the lazer representation, taiko mode)
+    #[serde(default)]
+    pub da_scroll: Option<f64>,
 }
 
 impl Cfg {
     pub fn game_mods(&self) -> rosu_pp::GameMods {
+        if let Some(sp) = self.da_scroll {
+            let im = rosu_mods::GameModsIntermode::from_bits(self.mods);
+            let mut lazer = im.with_mode(rosu_mods::GameMode::Taiko);
+            lazer.insert(rosu_mods::GameMod::DifficultyAdjustTaiko(rosu_mods::generated_mods::DifficultyAdjustTaiko {
+                scroll_speed: Some(sp),
+                ..Default::default()
+            }));
+            return lazer.into();
+        }
         match &self.acronyms {
             None => self.mods.into(),
             Some(a) => {
